@@ -83,7 +83,11 @@ fn probe(state: &State<RealP>, model: &[Pop], step: usize, op: &Op) -> Result<()
         let want = model.last().map(|p| p.iter().map(mview).collect::<Vec<_>>());
         ensure_that!(cur == want, "C04 get_current", "step {step} {op:?}: get_current() = {cur:?}, model top = {want:?}");
     }
-    // panicking accessors panic exactly when too shallow
+    // panicking accessors panic exactly when too shallow (under the fuzzer, where a panic costs ~50 us because of
+    // sanitizer-instrumented unwinding, only every 8th step)
+    if crate::engine::LIGHT_PROBES.load(std::sync::atomic::Ordering::Relaxed) && step % 8 != 0 {
+        return Ok(());
+    }
     for d in [0usize, h.saturating_sub(1), h, h + 1] {
         let r = catch(|| {
             let ps = state.populations();
@@ -279,7 +283,8 @@ fn run(ops: &[Op], classes: &mut u64) -> Result<(), crate::engine::Failure> {
                 model[h - 1].clear();
             }
             Op::CompDuplicate => {
-                if h == 0 {
+                // (size cap: repeated duplication doubles the population every time)
+                if h == 0 || model[h - 1].len() > 64 {
                     continue;
                 }
                 *classes |= 1 << 4;
